@@ -665,6 +665,12 @@ def evhold(rng):
         if rng.random() < 0.7:
             ops.append({"op": "deliver_all"})
     x = rng.randrange(n)
+    # (a manager written while the payments are still pending: restarting from it after the user has refused a
+    #  terminal event leaves only the monitors to hand that event over again)
+    early = rng.random() < 0.45
+    if early:
+        x = rng.choice([0, 0, n - 1, x])
+        ops += [{"op": "deliver_all"}, {"op": "save", "node": x}]
     ops.append({"op": "hold_events", "node": x, "on": True})
     if rng.random() < 0.3:
         ops.append({"op": "hold_events", "node": rng.randrange(n), "on": True})
@@ -677,12 +683,20 @@ def evhold(rng):
         ops += _deliveries(rng, dirs, rng.randrange(0, 8))
         if rng.random() < 0.3:
             ops.append({"op": "forward", "node": rng.randrange(n)})
-    if rng.random() < 0.5:
+    if early:
+        if rng.random() < 0.7:
+            ops.append({"op": "deliver_all"})
+    elif rng.random() < 0.5:
         ops.append({"op": "save", "node": x})
         ops += _deliveries(rng, dirs, rng.randrange(0, 5))
     r = rng.random()
+    if early:
+        r *= 0.55
     if r < 0.55:
-        ops.append({"op": "crash", "node": x, "mgr": rng.choice([0, 0, 1, "saved"]), "mon": rng.choice(["latest", "durable", "random"])})
+        ops.append({"op": "crash", "node": x, "mgr": "saved" if early else rng.choice([0, 0, 1, "saved"]), "mon": rng.choice(["latest", "latest", "durable", "random"])})
+        if early and rng.random() < 0.4:
+            # the user is still unable to take the event, and the node dies once more
+            ops += [{"op": "deliver_all"}, {"op": "crash", "node": x, "mgr": "saved", "mon": "latest"}]
     elif r < 0.75:
         ops.append({"op": "reload", "node": x})
     for (a, b) in pairs:
@@ -695,7 +709,221 @@ def evhold(rng):
     return {"cfg": _cfg(rng, n), "ops": ops}
 
 
-FAMILIES = {"bigclaim": bigclaim, "dustclose": dustclose, "slots": slots, "asynccross": asynccross, "blockedjump": blockedjump, "feecross": feecross, "opendisc": opendisc, "chainsettle": chainsettle, "crosslimit": crosslimit, "evhold": evhold, "failwin": failwin, "fanin": fanin, "inflight": inflight, "holdcell": holdcell, "stalehold": stalehold}
+def staletwo(rng):
+    """A - B - C.  Several HTLCs are outstanding on B-C (forwards from A and B's own payments) when B's
+    manager is written; C then resolves some of them -- in particular later ones while earlier ones stay --
+    and the dances complete, so B-C's monitor no longer knows them; B dies and restarts from the old
+    manager: B-C is closed from the monitor, and every HTLC the monitor has forgotten must be failed back /
+    reported by the restarted manager itself, since nobody else will (C10)."""
+    ops = []
+    kinds = []
+    for _ in range(rng.choice([2, 2, 3, 4])):
+        if rng.random() < 0.65:
+            ops.append({"op": "send", "from": 0, "to": 2, "amt": rng.choice(["big", "justabove", "justabove", "dust"])})
+            kinds.append("fwd")
+            ops += [{"op": "deliver_all"}, {"op": "forward", "node": 1}, {"op": "deliver_all"}]
+        else:
+            ops.append({"op": "send", "from": 1, "to": 2, "amt": rng.choice(["big", "justabove"])})
+            kinds.append("own")
+            ops.append({"op": "deliver_all"})
+    npay = len(kinds)
+    ops.append({"op": "save", "node": 1})
+    # C resolves a subset, biased towards the later ones
+    idx = list(range(npay))
+    chosen = [k for k in idx if rng.random() < (0.25 + 0.5 * k / max(1, npay - 1))] or [npay - 1]
+    if len(chosen) == npay and rng.random() < 0.8:
+        chosen.remove(rng.choice(chosen[:-1] or chosen))
+    rng.shuffle(chosen)
+    # mostly the dances on B-C run to completion link by link, WITHOUT B getting to process what it then owes
+    # upstream (deliver_all would let it): the restarted manager is the only one left to do that
+    dance = ([{"op": "deliver", "from": 2, "to": 1}] * 3 + [{"op": "deliver", "from": 1, "to": 2}] * 3) * 3
+    linkwise = rng.random() < 0.75
+    for k in chosen:
+        ops.append({"op": "fail" if rng.random() < 0.7 else "claim", "pay": k})
+        if rng.random() < 0.7:
+            ops += dance if linkwise else [{"op": "deliver_all"}]
+    r = rng.random()
+    if r < 0.7:
+        ops += dance if linkwise else [{"op": "deliver_all"}]
+    else:
+        ops += _deliveries(rng, [(2, 1), (1, 2), (1, 0), (0, 1)], rng.randrange(2, 9))
+    if rng.random() < 0.3:
+        ops.append({"op": "disconnect", "a": 0, "b": 1})
+    ops.append({"op": "crash", "node": 1, "mgr": "saved", "mon": rng.choice(["latest", "latest", "latest", "random"])})
+    ops += _wind_down(npay, rng, [(0, 1), (1, 2)])
+    return {"cfg": _cfg(rng, 3), "ops": ops}
+
+
+def monbcast(rng):
+    """The user asks a node's ChannelMonitor (not its manager) to broadcast the latest holder commitment of a
+    live channel while updates are in flight; the peer's next messages reach the manager before it has looked
+    at the monitor's events.  From the broadcast on, no revocation secret may leave that node (C05)."""
+    n = rng.choice([2, 2, 3])
+    pairs = [(i, i + 1) for i in range(n - 1)]
+    dirs = pairs + [(b, a) for (a, b) in pairs]
+    ops = []
+    npay = 0
+    for _ in range(rng.choice([0, 1, 2])):
+        a, b = rng.choice([(0, n - 1), (n - 1, 0), rng.choice(dirs)])
+        ops += [{"op": "send", "from": a, "to": b, "amt": rng.choice(["big", "justabove", "dust"])}, {"op": "deliver_all"}]
+        npay += 1
+    a, b = rng.choice(dirs)            # a's monitor broadcasts, b is the peer
+    kind = rng.random()
+    if kind < 0.45:
+        # b has just offered an HTLC: update_add_htlc + commitment_signed are on their way to a
+        ops.append({"op": "send", "from": b, "to": a, "amt": rng.choice(["big", "justabove", "dust"])})
+        npay += 1
+    elif kind < 0.75:
+        # a has offered one and b's revoke_and_ack + commitment_signed are on their way back
+        ops.append({"op": "send", "from": a, "to": b, "amt": rng.choice(["big", "justabove"])})
+        npay += 1
+        ops += [{"op": "deliver", "from": a, "to": b}] * 2
+    elif npay:
+        # b resolves something: update_fulfill / update_fail + commitment_signed on their way to a
+        ops.append({"op": rng.choice(["claim", "fail"]), "pay": rng.randrange(npay)})
+        ops += _deliveries(rng, dirs, rng.randrange(0, 6))
+    else:
+        ops.append({"op": "fee", "node": b, "feerate": rng.choice([500, 1000])})
+    ops.append({"op": "mon_broadcast", "a": a, "b": b, "then": rng.choice([1, 2, 2, 3, 4])})
+    ops += _deliveries(rng, dirs, rng.randrange(0, 6))
+    ops += _wind_down(npay, rng, pairs)
+    return {"cfg": _cfg(rng, n), "ops": ops}
+
+
+def discomplete(rng):
+    """A - B - C.  The monitor write that makes B's next step possible (A's revocation committing an HTLC B is to
+    forward; C's revocation removing an HTLC B is to fail back) is in flight when that peer disconnects, and is
+    reported complete DURING the disconnection: what was held for it -- the forward, the failure, the claim
+    bookkeeping -- is released then, not at some later unrelated completion (C09)."""
+    ops = []
+    npay = 0
+    for _ in range(rng.choice([0, 0, 1])):
+        a, b = rng.choice([(0, 2), (2, 0)])
+        ops += [{"op": "send", "from": a, "to": b, "amt": rng.choice(["big", "justabove"])}, {"op": "deliver_all"}]
+        npay += 1
+    back = rng.random() < 0.45
+    src, dst = rng.choice([(0, 2), (2, 0)])
+    up = (src, 1)            # link on which B received the HTLC
+    down = (1, dst)
+    ops.append({"op": "send", "from": src, "to": dst, "amt": rng.choice(["big", "justabove", "dust"])})
+    pay = npay
+    npay += 1
+    early = rng.random() < 0.3      # the write mode changes before the dance instead of just before the revocation
+    if not back:
+        if early:
+            ops.append({"op": "persist_mode", "node": 1, "mode": "inprogress"})
+        ops += [{"op": "deliver", "from": src, "to": 1}] * 2 + [{"op": "deliver", "from": 1, "to": src}] * 2
+        if not early:
+            ops.append({"op": "persist_mode", "node": 1, "mode": "inprogress"})
+        ops += [{"op": "deliver", "from": src, "to": 1}] * rng.choice([1, 1, 2])
+        peer = src
+    else:
+        ops.append({"op": "deliver_all"})
+        ops.append({"op": rng.choice(["fail", "fail", "claim"]), "pay": pay})
+        if early:
+            ops.append({"op": "persist_mode", "node": 1, "mode": "inprogress"})
+        ops += [{"op": "deliver", "from": dst, "to": 1}] * 2 + [{"op": "deliver", "from": 1, "to": dst}] * 2
+        if not early:
+            ops.append({"op": "persist_mode", "node": 1, "mode": "inprogress"})
+        ops += [{"op": "deliver", "from": dst, "to": 1}] * rng.choice([1, 1, 2])
+        peer = dst
+    ops.append({"op": "disconnect", "a": min(1, peer), "b": max(1, peer)})
+    if rng.random() < 0.25:
+        ops.append({"op": "persist_mode", "node": 1, "mode": "completed"})
+    ops.append({"op": "complete", "node": 1, "which": rng.choice(["all", "all", "oldest"])})
+    if rng.random() < 0.5:
+        ops.append({"op": "complete", "node": 1, "which": "all"})
+    ops.append({"op": "forward", "node": 1})
+    other = dst if peer == src else src
+    ops += _deliveries(rng, [(1, other), (other, 1)], rng.randrange(0, 6))
+    if rng.random() < 0.3:
+        ops.append({"op": "tick", "node": 1})
+    ops += _wind_down(npay, rng, [(0, 1), (1, 2)])
+    return {"cfg": _cfg(rng, 3), "ops": ops}
+
+
+def batchopen(rng):
+    """One funding transaction for several new channels of a node (batch funding) whose initial monitor writes
+    are in flight: the shared transaction is broadcast -- and channel_ready sent -- only when EVERY channel of
+    the batch has its first monitor durable, whatever the order of the completions (C09)."""
+    n = rng.choice([2, 3, 3])
+    pairs = [(i, i + 1) for i in range(n - 1)]
+    ops = []
+    npay = 0
+    if rng.random() < 0.4:
+        ops += [{"op": "send", "from": 0, "to": n - 1, "amt": "big"}, {"op": "deliver_all"}]
+        npay += 1
+    a = rng.randrange(n)
+    others = [i for i in range(n) if i != a]
+    k = rng.choice([2, 2, 3])
+    peers = [rng.choice(others) for _ in range(k)]
+    if n == 3 and a == 1 and rng.random() < 0.6:
+        peers = rng.sample([0, 2], 2) + peers[2:]
+    ops.append({"op": "persist_mode", "node": a, "mode": "inprogress"})
+    for p in set(peers):
+        if rng.random() < 0.3:
+            ops.append({"op": "persist_mode", "node": p, "mode": "inprogress"})
+    ops.append({"op": "open_batch", "a": a, "peers": peers})
+    links = [(a, p) for p in set(peers)] + [(p, a) for p in set(peers)]
+    if rng.random() < 0.7:
+        ops.append({"op": "deliver_all"})
+    else:
+        ops += _deliveries(rng, links, rng.randrange(4, 14))
+    # the funder's first monitor writes complete one by one, in any order
+    for _ in range(k + 1):
+        ops.append({"op": "complete", "node": a, "which": rng.choice(["newest", "newest", "oldest", "random"])})
+        if rng.random() < 0.5:
+            ops += _deliveries(rng, links, rng.randrange(0, 4))
+        if rng.random() < 0.15:
+            ops.append({"op": "confirm_extra"})
+    ops.append({"op": "deliver_all"})
+    ops += _wind_down(npay, rng, pairs)
+    ops[len(ops) - 1:len(ops) - 1] = [{"op": "confirm_extra"}, {"op": "deliver_all"}]
+    return {"cfg": _cfg(rng, n), "ops": ops}
+
+
+def skim(rng):
+    """A - B - C, LSP style: the payment names B's intercept SCID, B's user decides where the HTLC goes and may
+    keep an extra fee; C accepts the under-paying HTLC.  Nodes are re-read from what they wrote while B holds the
+    intercepted HTLC and while C holds the claimable payment: B still places it, C still claims it (C12); B never
+    pays out more than it took in (C02)."""
+    ops = []
+    npay = 0
+    if rng.random() < 0.3:
+        ops += [{"op": "send", "from": 2, "to": 0, "amt": "big"}, {"op": "deliver_all"}]
+        npay += 1
+    for _ in range(rng.choice([1, 1, 2])):
+        ops.append({"op": "send", "from": 0, "to": 2, "amt": rng.choice(["big", "justabove", "justabove"]), "intercept": True})
+        npay += 1
+        ops.append({"op": "deliver_all"})
+    r = rng.random()
+    if r < 0.35:
+        ops.append({"op": "reload", "node": 1})
+        ops += [{"op": "reconnect", "a": 0, "b": 1}, {"op": "reconnect", "a": 1, "b": 2}, {"op": "deliver_all"}]
+    elif r < 0.45:
+        ops += [{"op": "save", "node": 1}, {"op": "crash", "node": 1, "mgr": "saved", "mon": "latest"}]
+        ops += [{"op": "reconnect", "a": 0, "b": 1}, {"op": "reconnect", "a": 1, "b": 2}, {"op": "deliver_all"}]
+    if rng.random() < 0.15:
+        ops.append({"op": "intercept_fail", "node": 1})
+    else:
+        ops.append({"op": "intercept_fwd", "node": 1, "skim": rng.choice([0, 1, 20, 999, 5000])})
+    ops.append({"op": "deliver_all"})
+    r = rng.random()
+    if r < 0.5:
+        ops.append({"op": "reload", "node": 2})
+        ops += [{"op": "reconnect", "a": 1, "b": 2}, {"op": "deliver_all"}]
+    elif r < 0.6:
+        ops.append({"op": "reload", "node": 1})
+        ops += [{"op": "reconnect", "a": 0, "b": 1}, {"op": "reconnect", "a": 1, "b": 2}, {"op": "deliver_all"}]
+    ops += _wind_down(npay, rng, [(0, 1), (1, 2)])
+    ops.insert(len(ops) - 1, {"op": "intercept_fwd", "node": 1, "skim": 0})
+    ops.insert(len(ops) - 1, {"op": "deliver_all"})
+    c = _cfg(rng, 3)
+    c["intercept"] = True
+    return {"cfg": c, "ops": ops}
+
+
+FAMILIES = {"skim": skim, "batchopen": batchopen, "discomplete": discomplete, "monbcast": monbcast, "staletwo": staletwo, "bigclaim": bigclaim, "dustclose": dustclose, "slots": slots, "asynccross": asynccross, "blockedjump": blockedjump, "feecross": feecross, "opendisc": opendisc, "chainsettle": chainsettle, "crosslimit": crosslimit, "evhold": evhold, "failwin": failwin, "fanin": fanin, "inflight": inflight, "holdcell": holdcell, "stalehold": stalehold}
 
 
 def make(rng, family, count):
